@@ -402,6 +402,10 @@ def iterate_concrete(interp, st, v: V):
         for s, r in v.d(st):
             if r[0] != "ok":
                 yield s, r
+            elif isinstance(r[1], tuple):
+                if r[1][0] != "items":
+                    raise Unsupported("iteration of statically unknown length over a producer")
+                yield s, ("ok", list(r[1][1]))
             else:
                 yield from iterate_concrete(interp, s, r[1])
     else:
@@ -493,8 +497,10 @@ def contains(interp: Interp, st: St, x: V, coll: V, negate=False):
     """x in coll"""
     def out(s, e):
         return s, ("ok", V("bool", z3.Not(e) if negate else e))
-    if coll.kind == "tuple" or (coll.kind == "const" and isinstance(coll.d, (tuple, list))):
+    if coll.kind == "tuple" or (coll.kind == "const" and isinstance(coll.d, (tuple, list, set, frozenset))):
         items = coll.d if coll.kind == "tuple" else [const(i) for i in coll.d]
+        if coll.kind == "const" and isinstance(coll.d, (set, frozenset)):
+            interp.ctx.assume_note("membership of a sub-loader's result in a constant set assumes the result is hashable")
         xt = interp.term(st, x)
         e = z3.Or(*[T.F_pyeq(xt, interp.term(st, it)) for it in items]) if items else z3.BoolVal(False)
         yield out(st, e)
@@ -808,6 +814,11 @@ def consume(interp: Interp, st: St, x: V):
 def make_sequence(interp: Interp, st: St, pycls, seqval):
     """A fresh tuple/list/... holding the given elements."""
     if seqval[0] == "items":
+        if pycls in (tuple, set, frozenset) and all(x.kind == "const" and x.shadow is None for x in seqval[1]):
+            try:
+                return const(pycls(x.d for x in seqval[1]))
+            except TypeError:
+                pass
         if pycls is tuple:
             return V("tuple", list(seqval[1]))
         if pycls is list:
